@@ -316,6 +316,15 @@ class RunPoller(ClassModel):
             o.fields["g_acceptors"] = st.alloc(HList(list(ex.concrete_items(st, o.fields["g_acceptors"])) + [STuple([args[0], args[2]])]))
             return [ex.res(st, NONE)]
         if meth == "select":
+            w_ = st.obj(st.ghost["worker_ref"])
+            hb = w_.fields["timeout"].t                 # the heartbeat period the arbiter gave this worker (cfg.timeout / 2)
+            arg = args[0]
+            argt = arg.t if isinstance(arg, (SInt, SReal)) else None
+            if argt is None:
+                raise Unsupported("select timeout %r" % (arg,))
+            if isinstance(arg, SInt):
+                argt = z3.ToReal(argt)
+            st.ghost["wait_ok"] = And(st.ghost["wait_ok"], Or(hb == 0, argt <= hb))
             accs = ex.concrete_items(st, o.fields["g_acceptors"])
             outs = []
 
@@ -339,13 +348,18 @@ class RunPoller(ClassModel):
 
 
 def _futures_wait(ex, st, self_v, args, kwargs, node):
-    """concurrent.futures.wait: reports zero or one finished future"""
+    """concurrent.futures.wait: blocks up to `timeout`; reports zero or one finished future"""
+    to = kwargs.get("timeout")
+    if "worker_ref" in st.ghost and "wait_ok" in st.ghost and isinstance(to, (SInt, SReal)) and not st.ghost.get("loop_left"):
+        hb = st.obj(st.ghost["worker_ref"]).fields["timeout"].t
+        tt = z3.ToReal(to.t) if isinstance(to, SInt) else to.t
+        st.ghost["wait_ok"] = And(st.ghost["wait_ok"], Or(hb == 0, tt <= hb))
     s2 = st.fork()
     return [ex.res(st, st.alloc(HObj("WaitResult", {"done": st.alloc(HList([]))}))),
             ex.res(s2, s2.alloc(HObj("WaitResult", {"done": s2.alloc(HList([SymRef("FutObj", fresh_int("donefut"))]))})))]
 
 
-@contract("gunicorn.workers.gthread:ThreadWorker.run", props=("C13", "C18", "C04"))
+@contract("gunicorn.workers.gthread:ThreadWorker.run", props=("C13", "C18", "C04", "C11"))
 class GRun(Contract):
     """per iteration: connections are accepted only below the limit (call precondition of accept at every call site), the
     keep-alive reaper runs in EVERY iteration that completes, the data-structure invariants hold at every loop head"""
@@ -365,6 +379,10 @@ class GRun(Contract):
         st.ghost["worker_ref"] = w
         st.ghost["mk_ok"] = TRUE
         st.ghost["mk_since_notify"] = TRUE
+        st.ghost["wait_ok"] = TRUE
+        hbp = z3.Real("self.timeout")
+        st.assume(hbp >= 0)
+        o.fields["timeout"] = SReal(hbp)
         return [("run", st, {"self": w}, {})]
 
     def pre(self, c):
@@ -379,12 +397,15 @@ class GRun(Contract):
                 ("Inv:never-above-the-connection-limit", nr(c) <= W(c).fields["worker_connections"].t),
                 # C18 / C04: leaving the loop (max_requests reached, TERM) must not drop requests that were already accepted and
                 # queued for a handler thread: the pool is shut down WITHOUT cancelling pending work
+                # C11: between two heartbeats the loop never blocks longer than the heartbeat period it was given
+                ("waits-inside-the-loop-are-bounded-by-the-heartbeat-period", c.st.ghost["wait_ok"]) if False else ("waits-inside-the-loop-are-bounded-by-the-heartbeat-period", c.st.ghost["wait_ok"]),
                 ("handlers-already-queued-are-not-cancelled-when-the-loop-ends", Not(c.st.ghost.get("pool_cancelled_pending", FALSE))),
                 ("the-pool-is-shut-down-once", c.st.ghost.get("pool_shutdowns", iv(0)) == 1)]
 
     loops = {0: dict(anchor="for sock in self.sockets", cands=[]),
              1: dict(anchor="while self.alive", cands=[
                  ("mk_ok", lambda L: L.st.ghost["mk_ok"]),
+                 ("wait_ok", lambda L: L.st.ghost["wait_ok"]),
                  ("mk-ran-since-last-notify", lambda L: L.st.ghost["mk_since_notify"]),
                  ("Inv:keep-alive-queue", lambda L: keep_inv(L.st)),
                  ("Inv:registered-and-busy-connections", lambda L: reg_inv(L.st)),
